@@ -1,0 +1,155 @@
+//go:build verif
+
+package memfs
+
+import (
+	"crypto/sha256"
+	"fmt"
+	"sort"
+	"strings"
+)
+
+// VerifCheck walks the node graph of the file system directly (no locks taken: call it at quiescent points only)
+// and returns the list of broken structural invariants. It is only compiled with the verif build tag.
+func (vfs *MemFS) VerifCheck() []string {
+	var bad []string
+
+	dirRefs := make(map[*dirNode]int)
+	fileRefs := make(map[*fileNode]int)
+	budget := 1 << 20
+
+	var walk func(path string, dn *dirNode)
+
+	walk = func(path string, dn *dirNode) {
+		for name, c := range dn.children {
+			budget--
+			if budget < 0 {
+				return
+			}
+
+			p := path + "/" + name
+
+			switch n := c.(type) {
+			case nil:
+				bad = append(bad, "nil child at "+p)
+			case *dirNode:
+				if n == nil {
+					bad = append(bad, "nil dirNode at "+p)
+
+					continue
+				}
+
+				dirRefs[n]++
+				if dirRefs[n] > 1 {
+					bad = append(bad, "directory reachable by more than one path: "+p)
+
+					continue
+				}
+
+				walk(p, n)
+			case *fileNode:
+				if n == nil {
+					bad = append(bad, "nil fileNode at "+p)
+
+					continue
+				}
+
+				fileRefs[n]++
+
+				if n.nlink <= 0 {
+					bad = append(bad, fmt.Sprintf("entry %s points at a deleted file node (nlink=%d)", p, n.nlink))
+				}
+			case *symlinkNode:
+				if n == nil {
+					bad = append(bad, "nil symlinkNode at "+p)
+
+					continue
+				}
+
+				if n.link == "" {
+					bad = append(bad, "entry "+p+" points at a deleted symlink node")
+				}
+			}
+		}
+	}
+
+	roots := []*dirNode{vfs.rootNode}
+	for _, r := range vfs.volumes {
+		if r != vfs.rootNode {
+			roots = append(roots, r)
+		}
+	}
+
+	for _, r := range roots {
+		dirRefs[r]++
+		walk("", r)
+	}
+
+	if budget < 0 {
+		bad = append(bad, "walk from the root does not terminate")
+	}
+
+	for _, r := range roots {
+		if dirRefs[r] != 1 {
+			bad = append(bad, "root directory is reachable as a child")
+		}
+	}
+
+	for fn, refs := range fileRefs {
+		if fn.nlink != refs {
+			bad = append(bad, fmt.Sprintf("file id %d: nlink=%d but %d directory entries point at it", fn.id, fn.nlink, refs))
+		}
+	}
+
+	sort.Strings(bad)
+
+	return bad
+}
+
+// VerifDump returns a canonical dump of the node graph (paths sorted), used as a state key.
+func (vfs *MemFS) VerifDump() string {
+	var lines []string
+
+	budget := 1 << 16
+	ids := make(map[*fileNode]string)
+
+	var walk func(path string, dn *dirNode)
+
+	walk = func(path string, dn *dirNode) {
+		names := make([]string, 0, len(dn.children))
+		for name := range dn.children {
+			names = append(names, name)
+		}
+
+		sort.Strings(names)
+
+		for _, name := range names {
+			budget--
+			if budget < 0 {
+				return
+			}
+
+			p := path + "/" + name
+
+			switch n := dn.children[name].(type) {
+			case *dirNode:
+				lines = append(lines, fmt.Sprintf("%s d %o %d %d", p, n.mode.Perm(), n.uid, n.gid))
+				walk(p, n)
+			case *fileNode:
+				if _, ok := ids[n]; !ok {
+					ids[n] = p
+				}
+
+				lines = append(lines, fmt.Sprintf("%s f %o %d %d %d %x n%d =%s", p, n.mode, n.uid, n.gid,
+					len(n.data), sha256.Sum256(n.data), n.nlink, ids[n]))
+			case *symlinkNode:
+				lines = append(lines, fmt.Sprintf("%s l %d %d ->%s", p, n.uid, n.gid, n.link))
+			}
+		}
+	}
+
+	lines = append(lines, fmt.Sprintf("/ d %o %d %d", vfs.rootNode.mode.Perm(), vfs.rootNode.uid, vfs.rootNode.gid))
+	walk("", vfs.rootNode)
+
+	return strings.Join(lines, "\n")
+}
